@@ -154,6 +154,8 @@ func Specials() []string {
 		"<<<A\nEOT\nx\nA\n", "<<<A\nx\nEOT;\nA\n", "<<<'A'\n  EOT\nA\n", "<<<AB\nAB\n", "<<<A\nA\n", "<<<'AB'\nAB\n", "<<<AB\n  x\n  AB\n", "<<<AB\n\tx\n\tAB\n", "<<<A\nx\nA\n", "<<<A\nx $a y\nA\n", "<<<A\n$a\nA\n", "<<<A\nx\ny\nA\n", "<<<'A'\nx $a\nA\n", "<<<\"A\"\nx $a\nA\n", "<<< A\nx\nA\n", "<<<A\n\nA\n",
 		"<<< 'A'\nx $a\nA\n", "<<<\t'A'\n{$a} ${b}\nA\n", "b<<<'A'\nx $a[0]\nA\n", "B<<< \"A\"\nx $a\nA\n", "b<<<A\nx $a\nA\n", "<<<  \t A\nx\nA\n",
 		"<<<A\nx {$a->b} ${c} $d[1]\nA\n", "b<<<A\nx\nA\n", "<<<A\nxA\nA\n", "<<<A\nx\\$a \\{$b}\nA\n", "<<<A\n{$a[<<<B\ny\nB\n]}\nA\n",
+		// text that looks like an open or close tag inside string-like nodes (the printer decides its mode from chunk text)
+		"\"<?xml version=$v ?>\"", "\"$v ?>\"", "\"?>$v\"", "\"$v ?>\n\"", "\"x ?>\n$v<?php \"", "`php -r $v ?>`", "<<<A\n$v ?>\nA\n", "<<<A\n<?php $v\n?>\nA\n", "<<<'A'\nx ?>\nA\n", "'?>'", "'<?php '", "\"{$v}?>\"", "\"$v<?=\"",
 		"__LINE__", "__FILE__", "__DIR__", "__FUNCTION__", "__CLASS__", "__TRAIT__", "__METHOD__", "__NAMESPACE__", "__line__",
 		"(int)$a", "( int )$a", "(INTEGER)$a", "(bool)$a", "(boolean)$a", "(float)$a", "(double)$a", "(real)$a", "(string)$a", "(binary)$a", "(array)$a", "(object)$a", "(unset)$a", "(\tint\t)$a",
 		"TRUE", "Null", "foo", "\\foo", "namespace\\foo", "Foo\\Bar", "NAMESPACE\\foo",
